@@ -526,6 +526,136 @@ def run_byte_order(res):
     pysym.explore(body, on_path, max_paths=1000)
 
 
+# ----------------------------------------------------------------------
+# "attributes only where, how often and with the values allowed", "no byte-oriented members in bits":
+# documented tables, through the whole front end and the C++ back end (which validates `(cpp)` attributes)
+# ----------------------------------------------------------------------
+
+_ATTR_TEXT = {
+    "byte_order": lambda pl: 'byte_order: "BigEndian"',
+    "requires": lambda pl: {"field": "requires: this > 0", "struct": "requires: f > 0", "bits": "requires: lo > 0"}.get(pl, "requires: true"),
+    "text_output": lambda pl: 'text_output: "Skip"',
+    "maximum_bits": lambda pl: "maximum_bits: 8",
+    "is_signed": lambda pl: "is_signed: false",
+    "namespace": lambda pl: '(cpp) namespace: "a::b"',
+    "enum_case": lambda pl: '(cpp) enum_case: "kCamelCase"',
+}
+_PLACES = ["module", "struct", "bits", "enum", "field", "enum_value"]
+_T_HDR = '[$default byte_order: "LittleEndian"]\n'
+
+
+def _placement_module(attr, place, default, twice):
+    a = _ATTR_TEXT[attr](place)
+    if default:
+        a = ("(cpp) $default " + a[6:]) if a.startswith("(cpp) ") else "$default " + a
+    ins = {p: [] for p in _PLACES}
+    ins[place] = ["[%s]" % a] * (2 if twice else 1)
+    lines = [] if (attr == "byte_order" and place == "module") else ['[$default byte_order: "LittleEndian"]']
+    lines += ins["module"]
+    lines += ["struct St:"] + ["  " + x for x in ins["struct"]] + ["  0 [+2]  UInt  f"] + ["    " + x for x in ins["field"]]
+    lines += ["bits Bi:"] + ["  " + x for x in ins["bits"]] + ["  0 [+4]  UInt  lo"]
+    lines += ["enum En:"] + ["  " + x for x in ins["enum"]] + ["  VAL = 1"] + ["    " + x for x in ins["enum_value"]]
+    return "\n".join(lines) + "\n"
+
+
+def _placement_allowed(attr, place, default):
+    """doc/language-reference.md, section Attributes."""
+    if attr == "byte_order":
+        return (place == "field" and not default) or (default and place in ("module", "struct"))
+    if attr == "requires":
+        return not default and place in ("field", "struct", "bits")
+    if attr == "text_output":
+        return not default and place == "field"
+    if attr in ("maximum_bits", "is_signed"):
+        return not default and place == "enum"
+    if attr == "namespace":
+        return not default and place == "module"
+    if attr == "enum_case":
+        return (not default and place == "enum_value") or (default and place in ("module", "struct", "bits", "enum"))
+    raise AssertionError(attr)
+
+
+def table_cases():
+    """[(description, module text, accepted per the documentation)]"""
+    import itertools
+    cases = []
+    for attr, place, default, twice in itertools.product(_ATTR_TEXT, _PLACES, (0, 1), (0, 1)):
+        cases.append(("attribute %s%s on %s%s" % ("$default " if default else "", attr, place, " twice" if twice else ""),
+                      _placement_module(attr, place, default, twice), bool(_placement_allowed(attr, place, default) and not twice)))
+
+    def V(desc, text, want):
+        cases.append((desc, text, bool(want)))
+
+    H = _T_HDR
+    for v, w in [('"LittleEndian"', 1), ('"BigEndian"', 1), ('"Null"', 0), ('"MiddleEndian"', 0), ("3", 0), ("true", 0)]:
+        V("byte_order %s on a 2-byte field" % v, H + "struct St:\n  0 [+2]  UInt  f\n    [byte_order: %s]\n" % v, w)
+    for v, w in [('"Null"', 1), ('"BigEndian"', 1)]:
+        V("byte_order %s on a 1-byte field" % v, H + "struct St:\n  0 [+1]  UInt  f\n    [byte_order: %s]\n" % v, w)
+    for v, w in [('"Emit"', 1), ('"Skip"', 1), ('"None"', 0), ("1", 0), ("true", 0)]:
+        V("text_output %s" % v, H + "struct St:\n  0 [+1]  UInt  f\n    [text_output: %s]\n" % v, w)
+    for v, w in [("8", 1), ("64", 1), ("1", 1), ("0", 0), ("65", 0), ('"8"', 0), ("true", 0)]:
+        V("maximum_bits %s" % v, H + "enum En:\n  [maximum_bits: %s]\n  VAL = 1\n" % v, w)
+    for v, w in [("true", 1), ("false", 1), ("1", 0), ('"true"', 0)]:
+        V("is_signed %s" % v, H + "enum En:\n  [is_signed: %s]\n  VAL = 1\n" % v, w)
+    for v, w in [('"SHOUTY_CASE"', 1), ('"kCamelCase"', 1), ('"SHOUTY_CASE, kCamelCase"', 1), ('"kCamelCase, SHOUTY_CASE"', 1),
+                 ('"camelCase"', 0), ('""', 0), ('"SHOUTY_CASE, SHOUTY_CASE"', 0), ("3", 0)]:
+        V("enum_case %s" % v, H + "enum En:\n  VAL = 1\n    [(cpp) enum_case: %s]\n" % v, w)
+    for v, w in [('"a::b"', 1), ('"::a::b"', 1), ('"a"', 1), ('""', 0), ('"a::"', 0), ('"a b"', 0), ('"class"', 0), ("3", 0)]:
+        V("namespace %s" % v, H + "[(cpp) namespace: %s]\nstruct St:\n  0 [+1]  UInt  f\n" % v, w)
+    for v, w in [("this > 0", 1), ("true", 1), ("3", 0), ("this", 0), ("this + 1", 0), ('"x"', 0)]:
+        V("requires %s on a field" % v, H + "struct St:\n  0 [+1]  UInt  f\n    [requires: %s]\n" % v, w)
+    pre = H + "enum En:\n  VAL = 1\nbits Inner:\n  0 [+4]  UInt  lo\nstruct Bytes:\n  0 [+1]  UInt  b\n"
+    for m, w in [("0 [+4]  UInt  m", 1), ("0 [+1]  Flag  m", 1), ("0 [+4]  Int  m", 1), ("0 [+4]  Bcd  m", 1), ("0 [+4]  En  m", 1),
+                 ("0 [+4]  Inner  m", 1), ("0 [+8]  Bytes  m", 0), ("0 [+8]  UInt:4[2]  m", 1), ("0 [+16]  Bytes[2]  m", 0)]:
+        V("bits member `%s`" % m, pre + "bits Bi:\n  %s\n" % m, w)
+    return cases
+
+
+def _compile_text(text, name="probe.emb"):
+    from compiler.front_end import glue, emboss_front_end
+    from compiler.back_end.cpp import header_generator
+    real = emboss_front_end._find_in_dirs_and_read([common.REPO])
+
+    def rd(n):
+        return (text, None) if n == name else real(n)
+
+    ir, _, errors = glue.parse_emboss_file(name, rd)
+    if not errors:
+        _, errors = header_generator.generate_header(ir)
+    return errors
+
+
+def run_tables(res):
+    cases = table_cases()
+    holder = {}
+
+    def body(c):
+        k = c.choose(len(cases), "case")
+        holder["k"] = k
+        return _compile_text(cases[k][1])
+
+    def on_path(pr):
+        res["paths"] += 1
+        res["obligations"] += 1
+        desc, text, want = cases[holder["k"]]
+        cand = {"harness": "byte-order", "table": True, "values": {"case": desc}, "text": text}
+        if pr.kind == "raise":
+            res["candidates"].append(dict(cand, what="compiler crashed with %s: %s (documented: %s)" % (
+                type(pr.exc).__name__, str(pr.exc)[:80], "accept" if want else "reject"), crash=True))
+            return
+        errors = pr.value
+        res["witness"]["tables:" + ("rejected" if errors else "accepted")] = True
+        if bool(errors) == want:
+            msg = errors[0][0].message if errors else ""
+            res["candidates"].append(dict(cand, what="%s although the documentation says %s%s" % (
+                "rejected" if errors else "accepted", "accept" if want else "reject", (": " + msg) if msg else ""),
+                rejected=bool(errors)))
+        else:
+            res["discharged"] += 1
+
+    pysym.explore(body, on_path, max_paths=2000)
+
+
 def replay_byte_order(cand):
     from compiler.front_end import glue, emboss_front_end
     real = emboss_front_end._find_in_dirs_and_read([common.REPO])
@@ -534,6 +664,14 @@ def replay_byte_order(cand):
     def rd(name):
         return (text, None) if name == "cand.emb" else real(name)
 
+    if cand.get("table"):
+        try:
+            errors = _compile_text(text, "cand.emb")
+        except Exception as e:  # pylint: disable=broad-except
+            return True, "the compiler crashed with %s: %s on\n%s" % (type(e).__name__, str(e)[:100], text)
+        if cand.get("crash"):
+            return False, "no crash on replay"
+        return bool(errors) == cand["rejected"], "compiler %s:\n%s" % ("rejects" if errors else "accepts", text)
     try:
         ir, _, errors = glue.parse_emboss_file("cand.emb", rd)
     except Exception as e:  # pylint: disable=broad-except
@@ -568,6 +706,7 @@ def main(tier):
     names.append("byte-order")
     try:
         run_byte_order(res)
+        run_tables(res)
     except Exception as e:  # pylint: disable=broad-except
         rep.harness_error("byte-order: %s" % "".join(traceback.format_exception(type(e), e, e.__traceback__))[-900:])
     for u in res["unknown"]:
@@ -581,8 +720,9 @@ def main(tier):
         if cand["harness"] == "byte-order":
             ok, observed = replay_byte_order(cand)
             if ok:
-                rep.violation({"harness": "byte-order", "decision": cand["what"][:8]},
-                              "C14 byte order: %s for %s; %s" % (cand["what"], cand["values"], observed), cand)
+                rep.violation({"harness": "attribute-table" if cand.get("table") else "byte-order", "decision": cand["what"][:8]},
+                              "C14 %s: %s for %s; %s" % ("attribute/member table" if cand.get("table") else "byte order",
+                                                         cand["what"], cand["values"], observed), cand)
             else:
                 rep.harness_error("candidate did not reproduce: %r (%s)" % (cand["values"], observed))
             continue
@@ -622,9 +762,11 @@ def main(tier):
                               "attribute_checker._verify_width_attribute_on_enum", "attribute_checker._add_missing_width_and_sign_attributes_on_enum"],
         "bounds": {"numbers": "unbounded integers (maximum_bits 1..64 enumerated by the code's own 2**n)",
                    "byte order": "finite domain: 6 field types x module default x default on an earlier sibling x default on the enclosing structure x field attribute, through the whole front end",
-                   "outside": "attribute placement/duplication tables, reserved words, 'no byte-oriented members in bits' (finite tables without a numeric variable)"},
+                   "tables": "finite domain, through front end and C++ back end: 7 attributes x 6 placements x plain/$default x once/twice; "
+                             "allowed and disallowed values per attribute; 9 kinds of member of a bits type",
+                   "outside": "reserved words (the documented list is the file the compiler reads)"},
     })
-    rep.assumptions += ["the numeric thresholds of the property; table-driven rules are outside the claim"]
+    rep.assumptions += ["numeric thresholds and attribute tables as transcribed from doc/language-reference.md in vf/checks/c14.py"]
     return rep.finish()
 
 
